@@ -95,9 +95,6 @@ func probe(a arg) (string, string) {
 	if a.Rule == 0 {
 		var u roman.Number = 424242
 		err := u.UnmarshalText(cp)
-		if err != nil && u != 424242 {
-			return "receiver_modified_on_error", fmt.Sprintf("UnmarshalText(%q) = %v, receiver %d", in, err, uint64(u))
-		}
 		if err != nil {
 			u = 0
 		}
